@@ -28,9 +28,10 @@ import numpy as np
 from . import common
 from . import c16_scen as S
 from . import c16_graph as G
+from . import c16_prog as PR
 
 PROP = 'C16'
-GENERATED = ['Demes', 'Admix']
+GENERATED = ['Demes', 'Admix', 'DemesProg']
 NEEDS_BUILD = True
 NEEDS_DRIVER = True
 DRIVER_MODULES = ['DemesConv', 'DemesGraph']
@@ -73,6 +74,26 @@ def get_demes():
 
 def resolve(gd):
     return get_demes().Builder.fromdict(copy.deepcopy(gd)).resolve()
+
+def output_with_record(dadi, **kw):
+    """`Demes.output(**kw)` and the record (list of events) it worked on.  Since fix 004b109 `output` exports from
+    `copy.deepcopy(globals()['cache'])` and leaves `dadi.Demes.cache` untouched (no end times / deme names written into it); before, it
+    filled them into the global record.  Both forms are served: the deep copy of the global record made during the call is observed,
+    and when none is made the global record itself is what `output` worked on."""
+    import copy as _copy
+    Dm = dadi.Demes
+    seen = []
+    orig = _copy.deepcopy
+    def spy(x, *a, **k):
+        r = orig(x, *a, **k)
+        if x is Dm.cache: seen.append(r)
+        return r
+    _copy.deepcopy = spy
+    try:
+        g = Dm.output(**kw)
+    finally:
+        _copy.deepcopy = orig
+    return g, (seen[-1] if seen else Dm.cache)
 
 class Limit(Exception):
     """a documented limitation of dadi.Demes was hit (generator's fault, not a finding)"""
@@ -564,7 +585,7 @@ def k_export(chk, ctx, rng, n):
         durs = [0.0 if e.duration == INF else float(e.duration) for e in Dm.cache]
         was_pulse = [isinstance(e, Dm.Pulse) and len(e.sources) > 0 for e in Dm.cache]
         try:
-            g = Dm.output(Nref=Nref, generation_time=gt)
+            g, record = output_with_record(dadi, Nref=Nref, generation_time=gt)
         except Exception as e:
             chk.k_skipped += 1; chk.stat('K-export:output-raises'); continue
         g_ = 1.0 if gt is None else gt
@@ -573,10 +594,10 @@ def k_export(chk, ctx, rng, n):
         if not ans.startswith('ok '):
             chk.k_bad('endtimes', inp, None, ans, 'model error'); continue
         model = [float(x) for x in common.parse_list(ans.split()[1])]
-        impl = [float(e.end_time) / ((2 * Nref * g_) if p else 1.0) for e, p in zip(Dm.cache, was_pulse)]
+        impl = [float(e.end_time) / ((2 * Nref * g_) if p else 1.0) for e, p in zip(record, was_pulse)]
         _cmp_val(chk, 'endtimes', inp, impl, model, rtol=1e-12)
         # scalings: every integration record's deme has an epoch ending at expTime(end_time) with start size expSize(nu)
-        for e, et in zip(Dm.cache, model):
+        for e, et in zip(record, model):
             if not isinstance(e, Dm.Integration): continue
             for di, name in enumerate(e.deme_ids):
                 ans = drv.ask('c16 export %s %s %s %s %s' % (common.rat(Nref), common.rat(g_), common.rat(et), common.rat(float(e.start_sizes[di])), '0'))
@@ -620,10 +641,10 @@ def k_names(chk, ctx, rng, n_big):
                          dict(op='remove', axis=rm)]
         S.run_program(dadi, ops, 4)
         try:
-            Dm.output(Nref=1000.0)
+            _, record = output_with_record(dadi, Nref=1000.0)
         except Exception as e:
             chk.k_skipped += 1; chk.stat('K-names:output-raises'); continue
-        for older, younger in zip(Dm.cache[:-1], Dm.cache[1:]):
+        for older, younger in zip(record[:-1], record[1:]):
             if not isinstance(younger, (Dm.Reorder, Dm.Remove)): continue
             names = list(older.deme_ids)
             num = {nm: 10 + i for i, nm in enumerate(names)}
@@ -735,8 +756,8 @@ def run_export_case(chk, dadi, key, inp_json, ops, ns, pts, Nref, gt, cost):
     def exported(p):
         """run the program, export it, return the exported graph and the names of the final demes"""
         S.run_program(dadi, ops, p)
-        g = dadi.Demes.output(Nref=Nref, generation_time=gt)
-        return list(dadi.Demes.cache[-1].deme_ids), g.asdict()
+        g, record = output_with_record(dadi, Nref=Nref, generation_time=gt)
+        return list(record[-1].deme_ids), g.asdict()
     def fa(p):
         ids, gd = exported(p)
         # default reference size at import = exported root size nu0*Nref: theta = 4 Ne mu is nu0 times the program's
@@ -1151,6 +1172,11 @@ def run(chk, ctx):
         timed('K plan', G.k_plan, chk, ctx, R('k-plan'), 8 if quick else 80, eval_sym)
         timed('K steps', G.k_steps, chk, ctx, R('k-steps'), 10 if quick else 100, eval_sym)
         timed('K admixargs', G.k_admixargs, chk, ctx, R('k-admixargs'), eval_sym)
+        # round 5: the statement-by-statement translation of the import loop (Generated/DemesProg.lean), harness/c16_prog.py
+        timed('K gen events', PR.k_gen_events, chk, ctx, R('k-gen-events'), 8 if quick else 80, eval_sym)
+        timed('K gen import', PR.k_gen_import, chk, ctx, R('k-gen-import'), 12 if quick else 120, eval_sym)
+        timed('K gen apply', PR.k_gen_apply, chk, ctx, R('k-gen-apply'), 60 if quick else 600)
+        timed('K gen integrate', PR.k_gen_integrate, chk, ctx, R('k-gen-integrate'))
     if not any(e is not None for e in chk.translate.values()):
         guard_generated('after the correspondence')
     timed('L3 edges', l3_edges, chk, ctx)
@@ -1168,5 +1194,7 @@ def replay(chk, ctx, data):
         l3_edges(chk, ctx)
     elif inp.get('kind') in ('prepare-units', 'steps-scale', 'steps-order', 'admix-axis'):
         G.replay_case(chk, ctx, inp)
+    elif inp.get('kind') in ('integrate-wiring', 'Ne-threaded'):
+        PR.replay_case(chk, ctx, inp)
     else:
         eval_case(chk, ctx['dadi'], inp)
